@@ -96,6 +96,17 @@ PROPS = {
         assumptions=[],
         open=["GLOBAL invariant through the re-entrant propagation loop (every posted constraint is stored, in flight or entailed; domains only shrink; no stored constraint is ground at an answer) is NOT yet a theorem: the end-to-end statement is carried by the model/implementation correspondence and the brute-force oracle", "distinctfd ground-exactness is covered by the correspondence only"],
     ),
+    "C19": dict(
+        title="CLP(Z) plusz/timesz",
+        props_module="PvModel.Props.C19",
+        rule="1-3 plusz/timesz constraints over <=4 variables and integers in -6..=6 (zero, negatives, non-divisible products), operand aliasing, "
+             "chains, 0-3 grounding equalities, each program in every posting order (all permutations up to 3 goals, 6 random otherwise); oracle: "
+             "integer arithmetic over a window containing every forced value (failure only if no solution, bound part consistent, ground answers "
+             "exact, no panic, at most one answer); non-trivial = the equations have a solution or the goal failed; distinct = distinct case lines",
+        trusted=COMMON_TRUST,
+        assumptions=["operands are numbers or variables (the constructors assert this; other kinds are C23's malformed stream)"],
+        open=["a global theorem for arbitrary interleavings of several constraints (C19_chain) is carried by the correspondence: every posting order is run"],
+    ),
     "C01": dict(
         title="unification (State::unify vs unifyF)",
         props_module="PvModel.Props.C01",
